@@ -2262,7 +2262,8 @@ class DisplayStyle(MagicProperties):
 
     def reset(self):
         """Resets all nested properties to their hard coded default values."""
-        self.update(get_defaults_dict("display.style"), _match_properties=False)
+        for key, val in get_defaults_dict("display.style").items():
+            setattr(self, key, val)
         return self
 
     @property
